@@ -292,6 +292,8 @@ class _Exec(Tracked):
             return (st,)
         # a repository function that receives an FSM callback and calls it (db.archive(self._archive_done))
         for a in call.args:
+            if isinstance(a, ast.Lambda) and isinstance(a.body, ast.Call) and isinstance(a.body.func, ast.Attribute) and not a.body.args:
+                a = a.body.func  # lambda: self._archive_done()
             if isinstance(a, ast.Attribute) and self._fsm_expr(a.value):
                 cb = self.prog.method(FSM, a.attr)
                 if cb is not None and cb.qname in self.m.firing:
